@@ -123,6 +123,10 @@ def real_projection(kind, unphased, age, cavP, cavC, lik):
     raise ValueError(kind)
 
 
+class LeanTimeout(Exception):
+    pass
+
+
 class LeanEP:
     """One interactive driver process; `run(case_text, mode)` returns (status, states, calls)."""
 
@@ -144,8 +148,32 @@ class LeanEP:
     def __exit__(self, *a):
         self.close()
 
-    def run(self, text, mode="float", projection=real_projection, tamper=None):
-        """Returns dict(status='DONE'|'BAD <why>', states=[...], calls=[(kind, unphased, skipped)])."""
+    def run(self, text, mode="float", projection=real_projection, tamper=None, timeout=None):
+        """Returns dict(status='DONE'|'BAD <why>', states=[...], calls=[(kind, unphased, skipped)]).
+        With `timeout` (seconds) the driver is killed when the case takes longer (exact rational runs can blow up);
+        the session is then unusable and `LeanTimeout` is raised."""
+        timer = None
+        if timeout is not None:
+            import threading
+            self.timed_out = False
+
+            def _kill():
+                self.timed_out = True
+                self.p.kill()
+
+            timer = threading.Timer(timeout, _kill)
+            timer.start()
+        try:
+            return self._run(text, mode, projection, tamper)
+        except common.LeanError:
+            if timeout is not None and getattr(self, "timed_out", False):
+                raise LeanTimeout()
+            raise
+        finally:
+            if timer is not None:
+                timer.cancel()
+
+    def _run(self, text, mode, projection, tamper):
         self.p.stdin.write(text)
         self.p.stdin.flush()
         states, calls = [], []
@@ -421,14 +449,14 @@ def run_impl(obj, *, max_shape, regularise, iters, min_step=0.1):
     return states, "DONE"
 
 
-def run_model(L, cid, st, *, max_shape, regularise, iters, min_step=0.1, mode="float", star=False):
+def run_model(L, cid, st, *, max_shape, regularise, iters, min_step=0.1, mode="float", star=False, timeout=None):
     text = encode_case(cid, st, max_shape=max_shape, min_step=min_step, tiny=tiny_const(), regularise=regularise,
                        iters=iters, mode=mode, star=star)
 
     def proj(kind, unph, age, cavP, cavC, lik):
         return real_projection(kind, unph, age, cavP, cavC, lik)
 
-    return L.run(text, mode=mode, projection=proj)
+    return L.run(text, mode=mode, projection=proj, timeout=timeout)
 
 
 def compare(impl_states, impl_status, out):
@@ -530,21 +558,24 @@ def perturb_static(rng, st, huge=False):
 
 # ----------------------------------------------------------------------------- scalar kernels (C20 / C05)
 
-def run_ops(L, ops):
-    """ops: list of (op, [floats]); returns list of reply token lists (after the id)."""
-    text = "".join(f"case k{i}\nop {op}\nargs " + " ".join(f2h(x) for x in args) + "\nend\n"
-                   for i, (op, args) in enumerate(ops))
-    L.p.stdin.write(text)
-    L.p.stdin.flush()
+def run_ops(L, ops, batch=100):
+    """ops: list of (op, [floats]); returns list of reply token lists (after the id).
+    Sent in small batches: the driver answers each block as it reads it, so an unbounded write would fill both pipes."""
     out = []
-    for i in range(len(ops)):
-        line = L.p.stdout.readline()
-        if not line:
-            raise common.LeanError("EP driver died: " + L.p.stderr.read()[-1000:])
-        w = line.split()
-        if w[0] != f"k{i}":
-            raise common.LeanError(f"driver out of step: {line[:100]}")
-        out.append(w[1:])
+    for b0 in range(0, len(ops), batch):
+        chunk = ops[b0:b0 + batch]
+        text = "".join(f"case k{b0 + i}\nop {op}\nargs " + " ".join(f2h(x) for x in args) + "\nend\n"
+                       for i, (op, args) in enumerate(chunk))
+        L.p.stdin.write(text)
+        L.p.stdin.flush()
+        for i in range(len(chunk)):
+            line = L.p.stdout.readline()
+            if not line:
+                raise common.LeanError("EP driver died: " + L.p.stderr.read()[-1000:])
+            w = line.split()
+            if w[0] != f"k{b0 + i}":
+                raise common.LeanError(f"driver out of step: {line[:100]}")
+            out.append(w[1:])
     return out
 
 
